@@ -15,10 +15,12 @@ pub(crate) mod ctx;
 pub(crate) mod out;
 pub(crate) mod prover;
 pub(crate) mod prng;
+pub(crate) mod world;
 
 mod c01;
 mod c03;
 mod c05;
+mod c06;
 mod c07;
 mod c10;
 mod c13;
@@ -73,6 +75,7 @@ fn run_op(op: &str, seed: u64, n: u64, out: &mut out::Out) {
         "c01" => c01::run(seed, n, out),
         "c03" => c03::run(seed, n, out),
         "c05" => c05::run(seed, n, out),
+        "c06" => c06::run(seed, n, out),
         "c07" => c07::run(seed, n, out),
         "c10" => c10::run(seed, n, out),
         "c13" => c13::run(seed, n, out),
